@@ -29,7 +29,7 @@ var errInjected = errors.New("injected sink failure")
 
 type faultW struct {
 	k       int
-	variant string // error | short
+	variant string // error | short | latent
 	mode    string // from | once
 	n       int
 	buf     bytes.Buffer
@@ -55,6 +55,10 @@ func (w *faultW) Write(p []byte) (int, error) {
 			h := len(p) / 2
 			w.buf.Write(p[:h])
 			return h, io.ErrShortWrite
+		}
+		if w.variant == "latent" { // every byte is accepted and an error is reported all the same
+			w.buf.Write(p)
+			return len(p), errInjected
 		}
 		return 0, errInjected
 	}
@@ -154,6 +158,42 @@ func famFault(tr *Trace, scratch string, seed int64, tier string, workers int, r
 			}
 		}
 	}
+	if tier == "thorough" {
+		// every compressor behind the sink (each buffers and flushes differently, so the error surfaces at other writes)
+		for _, fc := range []struct{ f, comp string }{{"deb", "xz"}, {"deb", "zstd"}, {"deb", "none"}, {"rpm", "xz"}, {"rpm", "zstd"}, {"rpm", "lzma"}, {"rpm", "gzip:9"}} {
+			root := filepath.Join(scratch, fmt.Sprintf("fault-%s-comp-%s", fc.f, strings.ReplaceAll(fc.comp, ":", "")))
+			nodes := smallTree()
+			c := baseCfg("faultpkg")
+			c.Entries = []Entry{{Type: "file", Src: "src/bin", Dst: "/usr/bin/tool"}, {Type: "config", Src: "src/app.conf", Dst: "/etc/faultpkg/app.conf"}}
+			b := fileBytes(int64(len(fc.comp)), 150000)
+			nodes = append(nodes, Node{P: "src/big.bin", Kind: "file", Mode: 0o644, Mt: 1500000000, Size: len(b), data: b, Cid: cidOf(b)})
+			c.Entries = append(c.Entries, Entry{Type: "file", Src: "src/big.bin", Dst: "/opt/faultpkg/big.bin"})
+			if fc.f == "deb" {
+				c.DebCompression = fc.comp
+			} else {
+				c.RpmCompression = fc.comp
+			}
+			Materialise(root, nodes)
+			cases = append(cases, faultCase{fc.f, false, "comp-" + fc.comp, c.YAML(root), root})
+		}
+		// generated configurations (the payload / scripts / meta generators of the package family)
+		rng := newRng(seed + 99)
+		for i := 0; i < 18; i++ {
+			pc := genPkgCase(rng, 7000+i, []string{"payload", "scripts", "meta"}[i%3], scratch, tier)
+			Materialise(pc.Root, pc.Nodes)
+			if pc.Cfg.Pmt == 0 {
+				pc.Cfg.Pmt = 1600000000 // completeness is decided by comparing with the fault-free bytes: keep the clock out of them
+			}
+			y := pc.Cfg.YAML(pc.Root)
+			for _, f := range allFormats {
+				var probe bytes.Buffer
+				if packageWith(y, f, &probe) != nil {
+					continue // a generated configuration this format rejects: nothing to inject a fault into
+				}
+				cases = append(cases, faultCase{f, false, fmt.Sprintf("gen%d", i), y, pc.Root})
+			}
+		}
+	}
 	ids := make([]int, len(cases))
 	for i := range cases {
 		id++
@@ -188,7 +228,7 @@ func famFault(tr *Trace, scratch string, seed int64, tier string, workers int, r
 			}
 		}
 		for _, k := range ks {
-			for _, variant := range []string{"error", "short"} {
+			for _, variant := range []string{"error", "short", "latent"} {
 				for _, mode := range []string{"from", "once"} {
 					w := &faultW{k: k, variant: variant, mode: mode}
 					err := packageWith(fc.yaml, fc.fmtName, w)
